@@ -113,7 +113,7 @@ static void blk_fp12(void) {
 	if (!vh_block_begin("fp12")) return;
 	for (int i = 0; i < NS12; i++) for (int j = 0; j < NS12; j++) { if (!vh_thorough && (j % 2) && i != j) continue; if (!vh_next()) continue; sm9_z256_fp12_t a, b, r; uint8_t as[384], bs[384], got[384], exp[384]; fp12_set(a, as, SHAPE12[i]); fp12_set(b, bs, SHAPE12[j]); char *ah = hx384(as), *bh = hx384(bs);
 		static const char *O2[] = { "add", "sub", "mul" };
-		for (int o = 0; o < 3; o++) { switch (o) { case 0: sm9_z256_fp12_add(r, a, b); break; case 1: sm9_z256_fp12_sub(r, a, b); break; default: sm9_z256_fp12_mul(r, a, b); } sm9_z256_fp12_to_bytes(r, got); if (mq(exp, 384, "fop 12 %s %s %s", O2[o], ah, bh) != 384) vh_harness_error("model: %s", MLINE); cmp_out("fp12", O2[o], got, exp, 384, ah, bh); }
+		for (int o = 0; o < 3; o++) { switch (o) { case 0: sm9_z256_fp12_add(r, a, b); break; case 1: sm9_z256_fp12_sub(r, a, b); break; default: sm9_z256_fp12_mul(r, a, b); } sm9_z256_fp12_to_bytes(r, got); if (mq(exp, 384, "fop 12 %s %s %s", O2[o], ah, bh) != 384) vh_harness_error("model: %s", MLINE); cmp_out("fp12", O2[o], got, exp, 384, ah, bh); if (o == 2 && i == NS12 - 6 && j == NS12 - 5) vh_sample("{\"block\":\"fp12\",\"op\":\"mul\",\"got_first16\":\"%s\",\"model_first16\":\"%s\"}", HX(got, 16), HX(exp, 16)); }
 		if (i == j) { static const char *O1[] = { "neg", "dbl", "tri", "sqr", "inv", "frob1", "frob2", "frob3", "frob6" }; int az = 1; for (int k = 0; k < 384; k++) if (as[k]) az = 0;
 			for (int o = 0; o < 9; o++) { if (o == 4 && az) continue; switch (o) { case 0: sm9_z256_fp12_neg(r, a); break; case 1: sm9_z256_fp12_dbl(r, a); break; case 2: sm9_z256_fp12_tri(r, a); break; case 3: sm9_z256_fp12_sqr(r, a); break; case 4: sm9_z256_fp12_inv(r, a); break; case 5: sm9_z256_fp12_frobenius(r, a); break; case 6: sm9_z256_fp12_frobenius2(r, a); break; case 7: sm9_z256_fp12_frobenius3(r, a); break; default: sm9_z256_fp12_frobenius6(r, a); }
 				sm9_z256_fp12_to_bytes(r, got); if (mq(exp, 384, "fop 12 %s %s", O1[o], ah) != 384) vh_harness_error("model: %s", MLINE); cmp_out("fp12", O1[o], got, exp, 384, ah, ""); }
@@ -150,7 +150,7 @@ static void blk_pairing(void) {
 	sm9_z256_fp12_t g; sm9_z256_pairing(g, sm9_z256_twist_generator(), sm9_z256_generator()); uint8_t gs[384]; sm9_z256_fp12_to_bytes(g, gs);
 	for (int ai = 0; ai < na; ai++) for (int bi = 0; bi < na; bi++) { if (!vh_next()) continue; sm9_z256_t a, b; to_z(a, SC[AS[ai]].b); to_z(b, SC[AS[bi]].b); SM9_Z256_POINT P; SM9_Z256_TWIST_POINT Q; sm9_z256_point_mul_generator(&P, a); sm9_z256_twist_point_mul_generator(&Q, b); sm9_z256_fp12_t e; sm9_z256_pairing(e, &Q, &P); uint8_t got[384], exp[384], ps[65], qs[129]; sm9_z256_fp12_to_bytes(e, got); g1_ser(ps, &P); g2_ser(qs, &Q); char w[160]; snprintf(w, sizeof w, "a=%s b=%s", HX(SC[AS[ai]].b, 32), HX(SC[AS[bi]].b, 32));
 		/* model value on the library's own [a]P1, [b]P2 (the points are checked against the model in the group blocks) */
-		if (mq(exp, 384, "pair %s %s", hxn(ps, 65), hxn(qs, 129)) != 384) vh_harness_error("model: %s", MLINE); cmp_out("pairing", "value", got, exp, 384, w, "");
+		if (mq(exp, 384, "pair %s %s", hxn(ps, 65), hxn(qs, 129)) != 384) vh_harness_error("model: %s", MLINE); cmp_out("pairing", "value", got, exp, 384, w, ""); vh_sample("{\"block\":\"pairing\",\"scalars\":\"%s\",\"e_first16\":\"%s\",\"model_first16\":\"%s\"}", w, HX(got, 16), HX(exp, 16));
 		/* bilinearity against the library's own exponentiation: e([a]P1,[b]P2) = g^(ab mod N) */
 		sm9_z256_t ab; sm9_z256_t ar, br; uint8_t t32[32]; memcpy(t32, SC[AS[ai]].b, 32); if (cmp32(t32, NB) >= 0) sub32(t32, t32, NB); to_z(ar, t32); memcpy(t32, SC[AS[bi]].b, 32); if (cmp32(t32, NB) >= 0) sub32(t32, t32, NB); to_z(br, t32); sm9_z256_modn_mul(ab, ar, br); sm9_z256_fp12_t ge; sm9_z256_fp12_pow(ge, g, ab); uint8_t ges[384]; sm9_z256_fp12_to_bytes(ge, ges); cmp_out("pairing", "bilinear", got, ges, 384, w, "");
 		sm9_z256_fp12_t one; sm9_z256_fp12_set_one(one); vh_evals++; vh_nontriv++; if (sm9_z256_fp12_equ(e, one)) vh_viol("C17:pairing:degenerate", "\"case\":\"%s\"", w);
@@ -177,7 +177,7 @@ static void blk_sign(void) {
 		uint8_t sig[200]; size_t sl = 0; int sr = lib_sign(&K, MSGBUF, ml, SC[RI[ri]].b, sig, &sl); uint8_t ex[100]; int xl = mq(ex, 100, "sign %s %s %s %s", HX(SC[KSI[ki]].b, 32), hxn(IDBUF, idl), hxn(MSGBUF, ml), HX(SC[RI[ri]].b, 32)); if (xl < 0) vh_harness_error("model: %s", MLINE);
 		if (sr != 1) { vh_viol("C17:sign:failed", "\"case\":\"%s\",\"ret\":%d", cs, sr); continue; }
 		SM9_SIGNATURE S; const uint8_t *cp = sig; size_t cl = sl; if (sm9_signature_from_der(&S, &cp, &cl) != 1 || cl) { vh_viol("C17:sign:own-signature-does-not-parse", "\"case\":\"%s\"", cs); continue; } uint8_t hb[32], Sb[65]; sm9_z256_to_bytes(S.h, hb); g1_ser(Sb, &S.S);
-		if (xl == 97 && (memcmp(hb, ex, 32) || memcmp(Sb, ex + 32, 65))) vh_viol("C17:sign:signature-differs-from-model", "\"case\":\"%s\",\"h\":\"%s\",\"h_model\":\"%s\"", cs, HX(hb, 32), HX(ex, 32));
+		vh_sample("{\"block\":\"sign\",\"case\":\"%s\",\"h\":\"%s\",\"h_model\":\"%s\"}", cs, HX(hb, 32), xl == 97 ? HX(ex, 32) : "retry"); if (xl == 97 && (memcmp(hb, ex, 32) || memcmp(Sb, ex + 32, 65))) vh_viol("C17:sign:signature-differs-from-model", "\"case\":\"%s\",\"h\":\"%s\",\"h_model\":\"%s\"", cs, HX(hb, 32), HX(ex, 32));
 		int vr = lib_verify(&M, (const char *)IDBUF, idl, MSGBUF, ml, sig, sl); vh_evals++; vh_nontriv++; if (vr != 1) vh_viol("C17:verify:honest-signature-rejected", "\"case\":\"%s\",\"ret\":%d", cs, vr);
 		/* negatives */
 		{ uint8_t id2[8192]; memcpy(id2, IDBUF, idl); id2[idl - 1] ^= 1; vh_evals++; vh_nontriv++; if (lib_verify(&M, (const char *)id2, idl, MSGBUF, ml, sig, sl) == 1) vh_viol("C17:verify:other-identity-accepted", "\"case\":\"%s\"", cs); if (idl > 1) { vh_evals++; if (lib_verify(&M, (const char *)IDBUF, idl - 1, MSGBUF, ml, sig, sl) == 1) vh_viol("C17:verify:identity-prefix-accepted", "\"case\":\"%s\"", cs); } }
